@@ -22,7 +22,7 @@ InfoVariants == {BaseInfo} \cup { [BaseInfo EXCEPT ![f] = v] : f \in Fields, v \
 FewInfos == {BaseInfo, [BaseInfo EXCEPT !.inode = Z8], [BaseInfo EXCEPT !.sum = Sum1]}
 EncInfo(i) == i.device \o i.inode \o i.mode \o i.size \o i.sec \o i.nsec \o i.sum
 
-U32(n) == <<n % 256, (n \div 256) % 256, 0, 0>>            \* n < 65536 here
+U32(n) == <<n % 256, (n \div 256) % 256, (n \div 65536) % 256, 0>>     \* n < 2^24 here
 U64n(n) == U32(n) \o <<0,0,0,0>>
 
 (* StringList: u64 total size, then every string followed by a NUL *)
@@ -35,8 +35,13 @@ RECURSIVE SplitNul(_, _)
 SplitNul(bs, cur) == IF bs = <<>> THEN <<>>
                      ELSE IF Head(bs) = 0 THEN <<cur>> \o SplitNul(Tail(bs), <<>>)
                      ELSE SplitNul(Tail(bs), Append(cur, Head(bs)))
-FromU32(b) == b[1] + 256 * b[2]
-FromU64(b) == b[1] + 256 * b[2]
+FromU32(b) == b[1] + 256 * b[2] + 65536 * b[3]
+FromU64(b) == b[1] + 256 * b[2] + 65536 * b[3]
+(* lengths at which a byte of the little-endian length prefix crosses 0x7F/0x80, 0xFF/0x100, and the second and third byte   *)
+(* come into play (seed C15_7: a length byte >= 0x80 was sign-extended by the decoder)                                        *)
+LongLens == {127, 128, 129, 255, 256, 257, 384, 32767, 32768, 65535, 65536}
+LongStrs == { [i \in 1..n |-> IF i = n THEN 47 ELSE 97] : n \in LongLens }
+MidStrs == { ls \in LongStrs : Len(ls) < 1000 }            \* inside string lists (Flat/SplitNul recurse per byte)
 
 (* ---------------- BuildValue ---------------- *)
 KindNames == <<"Invalid", "VirtualInput", "ExistingInput", "MissingInput", "DirectoryContents", "DirectoryTreeSignature",
@@ -58,6 +63,8 @@ Values ==
   \cup { [kind |-> "SuccessfulCommandWithOutputSignature", sig |-> s, infos |-> is, strs |-> <<>>] : s \in {Z8, <<0,0,0,0,1,0,0,0>>}, is \in InfoSeqs }
   \cup { [kind |-> "DirectoryContents", sig |-> NoSig, infos |-> <<i>>, strs |-> l] : i \in FewInfos, l \in StrLists }
   \cup { [kind |-> k, sig |-> NoSig, infos |-> <<>>, strs |-> l] : k \in {"FilteredDirectoryContents", "StaleFileRemoval"}, l \in StrLists }
+  \cup { [kind |-> k, sig |-> NoSig, infos |-> <<>>, strs |-> l] : k \in {"FilteredDirectoryContents", "StaleFileRemoval"},
+                                                                  l \in UNION { {<<ls>>, <<<<97>>, ls>>} : ls \in MidStrs } }
 
 RECURSIVE EncInfos(_)
 EncInfos(is) == IF is = <<>> THEN <<>> ELSE EncInfo(Head(is)) \o EncInfos(Tail(is))
@@ -94,6 +101,9 @@ KeysDom ==
   { [kind |-> k, name |-> nm, filters |-> <<>>, data |-> <<>>] : k \in DOMAIN SimpleKinds, nm \in Names }
   \cup { [kind |-> k, name |-> nm, filters |-> f, data |-> <<>>] : k \in DOMAIN FilterKinds, nm \in Names, f \in KeyLists }
   \cup { [kind |-> "CustomTask", name |-> nm, filters |-> <<>>, data |-> d] : nm \in Names, d \in Names }
+  \cup { [kind |-> k, name |-> nm, filters |-> <<>>, data |-> <<>>] : k \in {"Node", "Command"}, nm \in LongStrs }
+  \cup { [kind |-> k, name |-> nm, filters |-> f, data |-> <<>>] : k \in DOMAIN FilterKinds, nm \in LongStrs, f \in {<<>>, <<<<97>>, <<>> >>} }
+  \cup { [kind |-> "CustomTask", name |-> nm, filters |-> <<>>, data |-> d] : nm \in LongStrs, d \in {<<>>, <<97, 0>>} }
 EncodeKey(k) ==
   IF k.kind \in DOMAIN SimpleKinds THEN <<SimpleKinds[k.kind]>> \o k.name
   ELSE IF k.kind \in DOMAIN FilterKinds THEN <<FilterKinds[k.kind]>> \o U32(Len(k.name)) \o k.name \o EncStrList(k.filters)
